@@ -455,6 +455,31 @@ pub fn run_sem(run: &Run) {
         _ => vec![1 << 6, 1 << 7],
     };
     crate::c15::cli_slice(run, &flagsets, &[None]);
+    // once more with a logger that accepts TRACE records (every log statement of the library is executed and its
+    // arguments are evaluated): the answers must not depend on whether somebody listens
+    crate::report::trace_logging(true);
+    for src in [Source::FamPresented(crate::fam::fam_a(2)), Source::Spelled, Source::FamCompact(crate::fam::fam_f(3, 1))] {
+        let res = run.par_family(
+            &format!("{} with trace logging switched on", src.name()),
+            src.size(),
+            Stats::default,
+            |st, k| {
+                let c = src.get(k);
+                let mut out = vec![];
+                sem_case_p(&prop, &c.text, &c.tts, c.sorting, &c.labels, &mut out, st);
+                for (kind, msg) in out {
+                    let mut d = src.describe(k);
+                    d["trace_logging"] = json!(true);
+                    run.violation(&format!("trace-logging:{}", kind), format!("{} on {} (a logger accepting TRACE records is installed)", msg, c.text), d);
+                }
+            },
+            &|k| src.describe(k),
+        );
+        for st in res {
+            run.add_counts(st.cases, st.calls, st.calls, st.nontrivial);
+        }
+    }
+    crate::report::trace_logging(false);
     run.extra("max_loop_steps_observed", json!(max_steps));
     run.extra("loop_step_budget", json!(STEP_BUDGET));
     run.extra("states_are", json!("distinct ADF inputs built on the real back-ends"));
@@ -464,6 +489,17 @@ pub fn run_sem(run: &Run) {
 pub fn replay_sem(prop: &str, case: &Value) -> Found {
     if case["type"] == "cli" {
         return crate::c15::replay(case);
+    }
+    if case["trace_logging"].as_bool().unwrap_or(false) {
+        let mut c2 = case.clone();
+        c2["trace_logging"] = json!(false);
+        crate::report::trace_logging(true);
+        let mut r = replay_sem(prop, &c2);
+        crate::report::trace_logging(false);
+        for f in r.iter_mut() {
+            f.0 = format!("trace-logging:{}", f.0);
+        }
+        return r;
     }
     let text = case["text"].as_str().unwrap_or_default().to_string();
     let tts: Vec<TT> = case["tts"]
